@@ -635,19 +635,19 @@ loop:
 	// 6. evidence
 	wall := time.Since(start).Seconds()
 	cov := map[string]any{
-		"evaluations":         m.Evals,
-		"distinct_nontrivial": m.Distinct,
-		"rule":                p.Rule,
-		"samples":             m.Samples,
-		"counters":            m.Counters,
-		"max":                 m.Max,
-		"sets":                m.Sets,
+		"evaluations":          m.Evals,
+		"distinct_nontrivial":  m.Distinct,
+		"rule":                 p.Rule,
+		"samples":              m.Samples,
+		"counters":             m.Counters,
+		"max":                  m.Max,
+		"sets":                 m.Sets,
 		"exhaustive_subspaces": m.Exhaustive,
-		"exhaustive":          false,
-		"hooks":               hooksState(),
-		"shards":              n,
-		"notes":               m.Notes,
-		"bounds":              "input length <= 16 KiB, nesting depth <= 512",
+		"exhaustive":           false,
+		"hooks":                hooksState(),
+		"shards":               n,
+		"notes":                m.Notes,
+		"bounds":               "input length <= 16 KiB, nesting depth <= 512",
 	}
 	kh := map[string]int64{}
 	for i, k := range knowns {
